@@ -161,7 +161,8 @@ def _build_case(draw):
             a['scratch'] = draw(st.integers(0, 3))
     return {'spec': spec, 'marks': marks, 'targets': targets,
             'future': draw(st.booleans()),
-            'wfault': draw(st.one_of(st.none(), st.integers(0, 12)))}
+            'wfault': draw(st.one_of(st.none(), st.integers(0, 12))),
+            'via_worker': draw(st.booleans())}
 
 
 def _expected(case, ref):
@@ -388,12 +389,23 @@ def exec_build_store(case):
                             + f[dawgie.Factories.task]
                         ):
                             bot = fac(dawgie.util.task_name(fac))
+                            # versions are recorded by the foreman or, as
+                            # worker.Context.run does, by a worker through
+                            # the database server
+                            import contextlib
+
+                            side = (store.worker_side if case.get('via_worker')
+                                    else contextlib.nullcontext)
                             try:
-                                dawgie.pl.version.record(bot)
+                                with side():
+                                    dawgie.pl.version.record(bot)
                             except OSError:
                                 # one catalogue write failed (disk full for
                                 # a moment): the recording is done again
-                                dawgie.pl.version.record(bot)
+                                with side():
+                                    dawgie.pl.version.record(bot)
+                    if case.get('via_worker'):
+                        out.label('versions-recorded-by-a-worker')
                     if hit[0]:
                         out.label('catalogue-write-failed-once-while-'
                                   'recording')
